@@ -130,6 +130,7 @@ class _Session:
         self.proc_removed = {}      # proc uid -> frame of removal
         self.coros = []             # dicts
         self.armed = None
+        self.stranded = set()       # worlds whose release was interrupted
         self.in_toggle = False
         self.fault = None
         self.done = False
@@ -457,6 +458,12 @@ class _Session:
         self.armed = None
         self.flags.add('on_remove:' + kind)
         d = self.d
+        if kind in ('switch', 'raise', 'quit'):
+            # the exception may cut a release of postponed callbacks short
+            # (an enabling assignment in progress): what is still queued
+            # stays queued, so "last callback == attachment" is not judged
+            # for this world any more
+            self.stranded.add(world.uid)
         if kind == 'spawn':
             world.create_entity(self.new_comp(0, world))
         elif kind in ('delete_other', 'delete_other_imm'):
@@ -625,7 +632,8 @@ class _Session:
                           f'({type(c).__name__}) listener: {reg}, attached: '
                           f'{uid in attached} ({when})', uid in attached, reg)
                 return
-            if w.dispatch_enabled and w is self.loop.current_world:
+            if w.dispatch_enabled and w is self.loop.current_world \
+                    and w.uid not in self.stranded:
                 last = seq[-1] if seq else 'remove'
                 if last != ('add' if uid in attached else 'remove'):
                     self.fail('C02', 'callbacks-vs-attachment', f'component '
